@@ -13,7 +13,7 @@ From Coq.Strings Require Import Byte.
 Require Import GV.Base.Res GV.Base.Byt GV.Base.Ints GV.Model.Leb GV.Model.Prim
                GV.Spec.LebSpec GV.Spec.FormSpec GV.Model.Attr GV.Spec.Forest GV.Model.AbbrevRd
                GV.Model.DieRd GV.Proofs.AttrProofs GV.Proofs.AbbrevRdProofs GV.Proofs.DieRdProofs GV.Proofs.NavProofs
-               GV.Spec.ForestSel GV.Model.TreeWalk GV.Proofs.TreeWalkProofs.
+               GV.Spec.ForestSel GV.Model.TreeWalk GV.Proofs.TreeWalkProofs GV.Proofs.CursorWalkProofs.
 Import ListNotations.
 Local Open Scope N_scope.
 
@@ -342,6 +342,35 @@ Example tree_any_walk_ex :
   sel_tree ex_codes (fun _ => Some 3%nat) 0 11 ex_root = preorder ex_codes (header_len ex_header) 0 ex_forest.
 Proof. split; [vm_compute; tauto|]. split; vm_compute; reflexivity. Qed.
 
+(* (6c) the same for the cloned-cursor recursion (clone the cursor on an entry, next_entry to its
+        first child, next_sibling along the child list — Model/TreeWalk.v cwalk_list): for EVERY strategy
+        and every budget n of top-level entries the entries visited are the selected sub-forest of the
+        unit's forest. Every next_sibling in it starts on an entry whose subtree holds any mixture of
+        entries with and without DW_AT_sibling and lands on the root entry of the following sibling, or
+        returns None at the list terminator / the end of the unit (CursorWalkProofs.next_sibling_next /
+        next_sibling_end over NavProofs.skip_tree). *)
+Theorem cursor_walk : forall dbg bigend types uoff h codes f pad tbl (sel : strategy) n,
+  let e := mkEnc (uh_version h) (uh_fmt64 h) (uh_asize h) bigend in
+  let body := enc_forest codes bigend (header_len h) f pad in
+  let hdr := mkUnit e (unit_length_of bigend h (nlen body)) (uh_type h) (uh_abbrev_off h) types uoff body in
+  addr_size_ok e -> header_len h + nlen body < two63 ->
+  Forall (fun t => tbl_get tbl (t_code codes t) = Some (t_abbrev codes t)) (forest_nodes f) ->
+  forest_ok codes e f -> sibs_fit codes (header_len h) f ->
+  exists c, entries dbg hdr = Ok c /\
+            walk_cursor dbg e tbl sel n c = Ok (sel_list codes sel 0 (header_len h) n f, None).
+Proof.
+  intros dbg bigend types uoff h codes f pad tbl sel n e body hdr He Hlen Hc Hok Hfit.
+  exact (CursorWalkProofs.cursor_walk dbg bigend types uoff h codes f pad tbl He Hlen Hc Hok Hfit sel n).
+Qed.
+
+Example cursor_walk_ex :
+  let sel : strategy := fun d => if d_offset d =? 11 then Some 2%nat else None in
+  map (fun d => (d_offset d, d_depth d, d_tag d)) (sel_list ex_codes sel 0 (header_len ex_header) 5 ex_forest) =
+    [(11, 0%Z, 17); (15, 1%Z, 46); (17, 1%Z, 52)] /\
+  sel_list ex_codes (fun _ => Some 3%nat) 0 (header_len ex_header) 1 ex_forest =
+    preorder ex_codes (header_len ex_header) 0 ex_forest.
+Proof. split; vm_compute; reflexivity. Qed.
+
 (* ------------------------------------------------------------------ *)
 (* (7) no step panics or exhausts the model's fuel, on ANY input, in both build modes (feeds C01).
        NavProofs.cursor_ok / tree_ok is the reader invariant "remaining input <= end offset, and
@@ -396,6 +425,15 @@ Proof.
 Qed.
 
 (* statement pins *)
+Check cursor_walk : forall dbg bigend types uoff h codes f pad tbl (sel : die -> option nat) n,
+  let e := mkEnc (uh_version h) (uh_fmt64 h) (uh_asize h) bigend in
+  let body := enc_forest codes bigend (header_len h) f pad in
+  let hdr := mkUnit e (unit_length_of bigend h (nlen body)) (uh_type h) (uh_abbrev_off h) types uoff body in
+  addr_size_ok e -> header_len h + nlen body < two63 ->
+  Forall (fun t => tbl_get tbl (t_code codes t) = Some (t_abbrev codes t)) (forest_nodes f) ->
+  forest_ok codes e f -> sibs_fit codes (header_len h) f ->
+  exists c, entries dbg hdr = Ok c /\
+            walk_cursor dbg e tbl sel n c = Ok (sel_list codes sel 0 (header_len h) n f, None).
 Check tree_any_walk : forall dbg bigend types uoff h codes f pad tbl (sel : die -> option nat) o t,
   let e := mkEnc (uh_version h) (uh_fmt64 h) (uh_asize h) bigend in
   let body := enc_forest codes bigend (header_len h) f pad in
